@@ -136,7 +136,11 @@ class InitialOrbitDetermination(ABC):
         Returns:
             ``bool``: whether or not obs are from the same pass
         """
-        sma = getSemiMajorAxis(norm(ob1_eci[:3]), norm(ob1_eci[3:]))
+        if len(ob1_eci) >= 6:
+            sma = getSemiMajorAxis(norm(ob1_eci[:3]), norm(ob1_eci[3:6]))
+        else:
+            # [NOTE]: position only (no velocity is known before IOD has run): assume a circular orbit.
+            sma = norm(ob1_eci[:3])
         period = getPeriod(sma)
         transit_time = (ob2_jdate - ob1_jdate) * DAYS2SEC
         if transit_time >= period:
